@@ -101,3 +101,10 @@ reg('C15', 'runtime monitoring: structure walker, value-law monitor and identity
     'compile/purge histories over up to 900 keys are checked with an identity ledger (<= 500 identical survivors, none '
     'after purge, every result equal to a fresh parse and carrying the requested arguments).',
     'Trusted: the documented bound of 500; equality of arguments as defined in ASSUMPTIONS; private attributes not attacked.')
+reg('C16', 'runtime monitoring: fresh-interpreter monitor with audit hooks, warning recorder and state diff per import sequence',
+    'Every import sequence of length <= 2 (quick, plus 350 sampled of length 3) / <= 3 (thorough) over twelve import forms of '
+    'bs4 and soupsieve runs in its own interpreter with sys.addaudithook, a warnings recorder and a before/after state '
+    'comparison installed before the first import; exit status, silence, absence of side-effect events and equality of '
+    'BeautifulSoup.select / soupsieve.select answers across all orders (incl. comment/doctype/text-sensitive selectors) '
+    'are the oracle.',
+    'Trusted: -B and PYTHONPATH=tree under test in the child; answers compared as (name, id) lists.')
